@@ -8,6 +8,7 @@ package mqttproxy
 //   cpub - client PUBLISH: limiter, backend pipeline, PUBACK id
 
 import (
+	"bytes"
 	"encoding/json"
 	"fmt"
 	"sort"
@@ -24,6 +25,7 @@ type c15FanClient struct {
 	Subs   []c15Sub `json:"subs"`
 	Unsubs []string `json:"unsubs,omitempty"` // UNSUBSCRIBEd after every client has subscribed, before the publishes
 	Left   bool     `json:"left,omitempty"`   // disconnected (socket closed) before the publishes
+	Rejoin bool     `json:"rejoin,omitempty"` // cleanSession=false; drops and reconnects (cleanSession=false) before the publishes
 	Gone   bool     `json:"gone"`             // unregistered through the admin endpoint before the publishes (subscriptions stay in the trie)
 }
 
@@ -69,7 +71,7 @@ func c15RunFan(in c15FanIn) (obs c15FanObs) {
 		}
 	}()
 	env := c15NewEnv(false, nil)
-	defer env.close()
+	defer env.closeInto(&obs.Bad)
 	live := map[string]*c15Cli{}
 	// phase 1: everybody connects and subscribes
 	for _, c := range in.Clients {
@@ -77,7 +79,7 @@ func c15RunFan(in c15FanIn) (obs c15FanObs) {
 			obs.Bad = append(obs.Bad, "duplicate client id "+c.Cid)
 			continue
 		}
-		cli, code := env.dial(c.Cid, true, true)
+		cli, code := env.dial(c.Cid, !c.Rejoin, true)
 		if cli == nil {
 			obs.Bad = append(obs.Bad, fmt.Sprintf("connect %s refused %d", c.Cid, code))
 			continue
@@ -104,6 +106,18 @@ func c15RunFan(in c15FanIn) (obs c15FanObs) {
 			cli.closeSock()
 			env.open--
 			delete(live, c.Cid)
+		} else if c.Rejoin {
+			cli.closeSock()
+			env.open--
+			delete(live, c.Cid)
+			if !c15Quiesce(env.open) {
+				obs.Bad = append(obs.Bad, "hung: no quiescence after "+c.Cid+" dropped")
+			}
+			if again, code := env.dial(c.Cid, false, true); again != nil {
+				live[c.Cid] = again
+			} else {
+				obs.Bad = append(obs.Bad, fmt.Sprintf("reconnect %s refused %d", c.Cid, code))
+			}
 		} else if c.Gone {
 			env.httpDeleteSession(c.Cid)
 			delete(live, c.Cid)
@@ -113,6 +127,10 @@ func c15RunFan(in c15FanIn) (obs c15FanObs) {
 		}
 	}
 	for i, p := range in.Pubs {
+		if c15Stuck() {
+			obs.Bad = append(obs.Bad, "hung: case abandoned")
+			break
+		}
 		payload := fmt.Sprintf("m%d", i)
 		if code := env.httpPublish(p.Topic, p.Qos, payload); code != 200 {
 			obs.Bad = append(obs.Bad, fmt.Sprintf("publish %d: http %d", i, code))
@@ -181,6 +199,10 @@ func c15GenFan(r *vfRand, adv bool) c15FanIn {
 			c.Subs[1].Q = 0
 		}
 		c.Gone = !adv && r.Chance(1, 8)
+		if !c.Gone && r.Chance(1, 6) && len(c.Subs) > 1 {
+			c.Rejoin = true
+			c.Subs[0].Q, c.Subs[1].Q = 1, 0 // restored filters must keep their own QoS
+		}
 		if !c.Gone && r.Chance(1, 4) && len(c.Subs) > 0 {
 			// unsubscribe one of its own filters (sometimes one it never had) or leave altogether
 			switch r.Intn(4) {
@@ -288,7 +310,7 @@ func c15RunSess(in c15SessIn) (obs c15SessObs) {
 		}
 	}()
 	env := c15NewEnv(false, nil)
-	defer env.close()
+	defer env.closeInto(&obs.Bad)
 	cli, code := env.dial("dev", true, false)
 	if cli == nil {
 		obs.Bad = append(obs.Bad, fmt.Sprintf("connect refused %d", code))
@@ -314,6 +336,10 @@ func c15RunSess(in c15SessIn) (obs c15SessObs) {
 		consumed = len(all)
 	}
 	for _, op := range in.Ops {
+		if c15Stuck() {
+			obs.Bad = append(obs.Bad, "hung: case abandoned")
+			break
+		}
 		st := c15SessStep{Recv: [][3]int{}, Acked: -1, Res: "ok"}
 		switch op.Op {
 		case "pub":
@@ -415,6 +441,7 @@ type c15CPubIn struct {
 	Pipe        bool      `json:"pipe"` // a publish pipeline is configured
 	RequestRate int       `json:"requestRate"`
 	BytesRate   int       `json:"bytesRate"`
+	Burst       bool      `json:"burst,omitempty"` // all PUBLISH packets back-to-back in one write, one barrier at the end
 	Pubs        []c15CPub `json:"pubs"`
 }
 
@@ -440,26 +467,44 @@ func c15RunCPub(in c15CPubIn) (obs c15CPubObs) {
 		lim = &RateLimit{RequestRate: in.RequestRate, BytesRate: in.BytesRate, TimePeriod: 1000000}
 	}
 	env := c15NewEnv(in.Pipe, lim)
-	defer env.close()
+	defer env.closeInto(&obs.Bad)
 	cli, code := env.dial("pub", true, true)
 	if cli == nil {
 		obs.Bad = append(obs.Bad, fmt.Sprintf("connect refused %d", code))
 		return
 	}
 	obs.End = "ok"
-	for _, p := range in.Pubs {
+	mk := func(p c15CPub) *packets.PublishPacket {
 		pk := packets.NewControlPacket(packets.Publish).(*packets.PublishPacket)
 		pk.Qos = byte(p.Qos)
 		pk.MessageID = uint16(p.ID)
 		pk.TopicName = p.Topic
 		pk.Payload = []byte(p.Payload)
-		if err := cli.write(pk); err != nil {
-			obs.End = "eof"
-			break
+		return pk
+	}
+	if in.Burst {
+		var buf bytes.Buffer
+		for _, p := range in.Pubs {
+			mk(p).Write(&buf)
 		}
-		if r := cli.ping(); r != "ok" {
+		cli.wmu.Lock()
+		_, err := cli.conn.Write(buf.Bytes())
+		cli.wmu.Unlock()
+		if err != nil {
+			obs.End = "eof"
+		} else if r := cli.ping(); r != "ok" {
 			obs.End = r
-			break
+		}
+	} else {
+		for _, p := range in.Pubs {
+			if err := cli.write(mk(p)); err != nil {
+				obs.End = "eof"
+				break
+			}
+			if r := cli.ping(); r != "ok" {
+				obs.End = r
+				break
+			}
 		}
 	}
 	if obs.End == "eof" {
@@ -489,13 +534,22 @@ func c15GenCPub(r *vfRand, adv bool) c15CPubIn {
 		in.BytesRate = r.Range(30, 120)
 	}
 	n := r.Range(1, 8)
+	if r.Chance(1, 3) {
+		// a burst of QoS 1 publishes with distinct ids: every one must be acknowledged with its own id
+		in.Burst = true
+		n = r.Range(8, 40)
+	}
 	for i := 0; i < n; i++ {
 		p := c15CPub{Qos: r.PickInt(1, 1, 1, 0, 2), ID: r.PickInt(1, 2, 7, 65535, 0, 300+i), Topic: r.PickStr("up/a", "up/b", "x")}
+		if in.Burst {
+			p.Qos = r.PickInt(1, 1, 1, 1, 0)
+			p.ID = 11 + i
+		}
 		body := fmt.Sprintf("p%d", i) + "........"[:r.Intn(8)]
 		switch k := r.Intn(12); {
 		case k == 0:
 			p.Payload = "D" + body
-		case k == 1 && i >= n/2:
+		case k == 1 && i >= n/2 && !in.Burst:
 			p.Payload = "X" + body
 		default:
 			p.Payload = body
